@@ -83,11 +83,28 @@ inductive Codec
   | json | xml
   deriving DecidableEq, Repr, Inhabited
 
-/-- `unmarshalBody`: JSON if the Content-Type contains "json", else XML if it contains "xml",
-else JSON again (case-sensitive, anywhere in the value). -/
+/-- ASCII lower-casing of one byte. -/
+def lowerB (b : UInt8) : UInt8 := if 65 ≤ b ∧ b ≤ 90 then b + 32 else b
+
+/-- `strings.ToLower` as far as the two searches below can tell. The Go function lower-cases
+rune by rune (`unicode.ToLower`; an invalid byte becomes U+FFFD): bytes < 0x80 are runes of their
+own and only `A`–`Z` among them change, every other rune is and stays a run of bytes ≥ 0x80 —
+except U+0130 → `i` and U+212A → `k`, the only non-ASCII runes whose lower case is ASCII. Neither
+`i` nor `k` occurs in "json" / "xml", so these act as separators exactly like the bytes they
+replace: whether the lower-cased string contains "json" / "xml" is decided by the ASCII-lowered
+bytes. (Assumption of the model, exercised by the lanes with Kelvin signs, dotted capital I,
+other non-ASCII letters and invalid UTF-8 in the content type.) -/
+def lowerBytes (ct : Bytes) : Bytes := ct.map lowerB
+
+/-- `util.IsJSONType` / `util.IsXMLType` (since /repo f13c292: case-insensitive, RFC 9110 8.3.1). -/
+def isJSONType (ct : Bytes) : Bool := hasSub sJson (lowerBytes ct)
+def isXMLType (ct : Bytes) : Bool := hasSub sXml (lowerBytes ct)
+
+/-- `unmarshalBody` / `Response.Unmarshal`: JSON if the Content-Type mentions "json" (in any
+letter case, anywhere in the value), else XML if it mentions "xml", else JSON again. -/
 def codecFor (ct : Bytes) : Codec :=
-  if hasSub sJson ct then .json
-  else if hasSub sXml ct then .xml
+  if isJSONType ct then .json
+  else if isXMLType ct then .xml
   else .json
 
 /-! ### binding -/
